@@ -9,8 +9,8 @@ import worldgen
 
 LEVEL = "proof"
 TRUSTED = ("intervaltree.IntervalTree and sortedcontainers.SortedDict are modelled by their abstract behaviour (Model/LazyTree.v)",)
-WEIGHTS = {'setparent': 2, 'set': 1, 'attr': 2, 'symx': 5}
-POOL = {'IR': 1, 'Module': 2, 'Section': 2, 'ByteInterval': 4, 'CodeBlock': 1, 'DataBlock': 0, 'ProxyBlock': 0, 'Symbol': 2}
+WEIGHTS = {'setparent': 2, 'set': 1, 'attr': 2, 'symx': 5, 'mods': 1}
+POOL = {'IR': 2, 'Module': 3, 'Section': 2, 'ByteInterval': 4, 'CodeBlock': 1, 'DataBlock': 0, 'ProxyBlock': 0, 'Symbol': 2}
 METHODS = ['symbolic_expressions_at', 'symbolic_expressions_at_offset']
 
 
